@@ -447,6 +447,51 @@ void h_descriptor(void)
     errno = 0;
     rc = vnaproperty_delete(&root, "foo");
     CHECK(rc == -1 && errno == ENOENT, "deleting it again is ENOENT");
+#elif DESC_CASE == 7
+    rc = vnaproperty_set(&root, "a.b=1");
+    REACH("nested set returned");
+    CHECK(rc == 0, "a nested map is created on demand");
+    CHECK(vnaproperty_type(root, "a") == 'm' && vnaproperty_type(root, "a.b") == 's' &&
+	    vnaproperty_type(root, ".") == 'm', "types along the path");
+    v = vnaproperty_get(root, "a.b");
+    CHECK(v != NULL && str_eq(v, "1"), "the nested value reads back");
+    CHECK(vnaproperty_count(root, "a") == 1 && vnaproperty_count(root, ".") == 2, "counts of the two maps");
+    v = vnaproperty_get(root, "foo");
+    CHECK(v != NULL && str_eq(v, "bar"), "the sibling is untouched");
+#elif DESC_CASE == 8
+    {
+	const char **keys;
+
+	rc = vnaproperty_set(&root, "zed=1");
+	CHECK(rc == 0, "second key set");
+	keys = vnaproperty_keys(root, ".");
+	REACH("keys returned");
+	CHECK(keys != NULL && keys[0] != NULL && keys[1] != NULL && keys[2] == NULL,
+		"keys returns a NULL-terminated vector with one entry per key");
+	if (keys != NULL && keys[0] != NULL && keys[1] != NULL)
+	    CHECK(str_eq(keys[0], "foo") && str_eq(keys[1], "zed"), "keys come in insertion order");
+	free((void *)keys);
+    }
+#elif DESC_CASE == 9
+    rc = vnaproperty_set(&root, "foo=baz");
+    REACH("overwrite returned");
+    CHECK(rc == 0, "set overwrites an existing value");
+    v = vnaproperty_get(root, "foo");
+    CHECK(v != NULL && str_eq(v, "baz"), "the new value reads back (old one freed: leak check)");
+    CHECK(vnaproperty_count(root, ".") == 1, "still one key");
+#elif DESC_CASE == 10
+    rc = vnaproperty_set(&root, "\\2port=x");		/* quoted first character */
+    REACH("quoted set returned");
+    CHECK(rc == 0, "a key starting with a digit can be set when quoted");
+    v = vnaproperty_get(root, "\\2port");
+    CHECK(v != NULL && str_eq(v, "x"), "and read back with the same quoting");
+    {
+	const char **keys = vnaproperty_keys(root, ".");
+
+	CHECK(keys != NULL && keys[0] != NULL && keys[1] != NULL && keys[2] == NULL &&
+		str_eq(keys[1], "2port"), "the stored key is the unquoted text");
+	free((void *)keys);
+    }
 #endif
     (void)sub; (void)v;
     (void)vnaproperty_delete(&root, ".");
